@@ -308,10 +308,19 @@ def _size_poly(e: ast.AST, func: Func = None, defs=None) -> Poly:
             pd = single_defs(func.parent)
             if e.id in pd:
                 return _size_poly(pd[e.id], func.parent, {k: v for k, v in pd.items() if k != e.id})
+    if isinstance(e, ast.Subscript) and isinstance(e.value, ast.Attribute) and e.value.attr in ("shape", "_shape") \
+            and isinstance(e.slice, ast.Constant) and isinstance(e.slice.value, int) and unparse(e.value.value) == "self":
+        # size of one axis of the object's outcome shape: a symbol of its own (equal to m only for a flat shape)
+        return Poly.sym("n%d" % e.slice.value)
     if isinstance(e, ast.Call):
         dn = dotted(e.func) or ""
-        if dn == "len":
-            return Poly.sym("m")
+        if dn == "len" and len(e.args) == 1:
+            t = unparse(e.args[0])
+            if t.split(".")[-1].lstrip("_") in ("hss", "vecs", "matrices", "povm_elements", "kraus_matrices") or t in ("hss", "vecs"):
+                return Poly.sym("m")
+            if t.split(".")[-1].lstrip("_") == "shape":
+                return Poly.sym("rank")
+            raise Undecided("length of %s" % t)
         if dn.split(".")[-1] == "sqrt" and len(e.args) == 1:
             try:
                 return _size_poly(e.args[0], func, defs) ** Fraction(1, 2)
